@@ -43,20 +43,37 @@ pub fn run(ctx: &mut Ctx) {
         let budget = if rng.chance(0.1) { 40 } else { rng.range(1, 12) as u64 };
         let threads = if rng.chance(0.25) { 4 } else { 1 };
         let seed = rng.next();
+        // pass markers (hook H3) are logged in every run: the number of traversals that actually
+        // ran is a witness of the stopping iteration that does not go through the solver's own
+        // bound arithmetic
         let hook = || {
             if method == SolveMethod::Full {
-                None
+                Some(Config { flags: cfr::verif::LOG_PASS, sampling: Sampling::Production, jitter_seed: 0 })
             } else {
-                Some(Config { flags: 0, sampling: Sampling::Seeded(seed), jitter_seed: 0 })
+                Some(Config { flags: cfr::verif::LOG_PASS, sampling: Sampling::Seeded(seed), jitter_seed: 0 })
             }
         };
+        let per_iter: u64 = if method == SolveMethod::External { 2 } else { 1 };
+        let passes = |o: &solve::Out| o.events.iter().filter(|e| matches!(e, cfr::verif::Event::Pass { .. })).count() as u64;
         // the unthresholded runs with budgets 1..=N
         let mut seq: Vec<Box<solve::Out>> = Vec::new();
         for t in 1..=budget {
             let cfg = Cfg { method, iters: t, max_reg: 0.0, threads, params };
             ctx.mark(idx, &cfg.describe());
             match solve::run(&prep, &cfg, hook()) {
-                Outcome::Ok(out) => seq.push(out),
+                Outcome::Ok(out) => {
+                    // threshold 0: no bound is below it, so exactly t iterations must run
+                    if passes(&out) != t * per_iter {
+                        ctx.violation(
+                            idx,
+                            &format!("C09:iterations-run-differ-from-budget:{}{}", gen::method_name(method), if threads > 1 { ":multi" } else { "" }),
+                            &format!("{}: {} traversal(s) ran, {} expected (threshold 0 can never be undercut, bound returned {}) on {}", cfg.describe(), passes(&out), t * per_iter, out.total_bound, desc),
+                            json!({"game": tree.to_json(), "cfg": cfg.describe(), "desc": desc}),
+                        );
+                        return;
+                    }
+                    seq.push(out)
+                }
                 Outcome::Err(_) => {
                     ctx.inconclusive("thread-spawn-error");
                     return;
@@ -161,6 +178,10 @@ pub fn run(ctx: &mut Ctx) {
                         );
                         return;
                     }
+                    if threads == 1 && passes(&out) != tstar as u64 * per_iter {
+                        ctx.violation(idx, &format!("C09:iterations-run-differ-from-tstar:{}", gen::method_name(method)), &format!("{}: {} traversal(s) ran, t*={} expected", cfg.describe(), passes(&out), tstar), detail());
+                        return;
+                    }
                     if (tstar as u64) < budget && !(out.total_bound < r) {
                         ctx.violation(idx, "C09:stopped-early-but-bound-not-below-threshold", &format!("{}: bound {}", cfg.describe(), out.total_bound), detail());
                         return;
@@ -183,7 +204,7 @@ pub fn run(ctx: &mut Ctx) {
         }
     });
     ctx.finish(crate::report::extra(
-        "cases = (game, method, parameters, budget N, threads, threshold r): for each game/method/parameter set the harness first runs solve(m, t, 0) for t = 1..N (N in 1..12, sometimes 40) to obtain the bound sequence b_1..b_N and results S_1..S_N, then runs solve(m, N, r) for r in {0,-0,-1,NaN,+-inf} and b_t, next_up(b_t), next_down(b_t), 1.5 b_t, midpoints of neighbours, and requires the result to be S_{t*} with t* = first t with b_t < r else N (also with budgets u64::MAX, u64::MAX-1, 2^63 and N+1 paired with a threshold reached within N iterations): bit-identical with one thread, within 1e-9 with four threads (thresholds within 1e-9 relative of some b_t are then don't-care; a difference is inconclusive if a logged run of the configuration passes within 1e-9 of a regret-matching discontinuity, as in C06/C07), and bound < r whenever t* < N. Sampled and External run under seeded sampling decisions (hook H2) so that the draw at (infoset, pass) is a pure function. distinct = hash(tree, configuration incl. threshold, sampling seed); non-trivial = game has a decision infoset.",
+        "cases = (game, method, parameters, budget N, threads, threshold r): for each game/method/parameter set the harness first runs solve(m, t, 0) for t = 1..N (N in 1..12, sometimes 40) to obtain the bound sequence b_1..b_N and results S_1..S_N, then runs solve(m, N, r) for r in {0,-0,-1,NaN,+-inf} and b_t, next_up(b_t), next_down(b_t), 1.5 b_t, midpoints of neighbours, and requires the result to be S_{t*} with t* = first t with b_t < r else N (also with budgets u64::MAX, u64::MAX-1, 2^63 and N+1 paired with a threshold reached within N iterations): bit-identical with one thread, within 1e-9 with four threads (thresholds within 1e-9 relative of some b_t are then don't-care; a difference is inconclusive if a logged run of the configuration passes within 1e-9 of a regret-matching discontinuity, as in C06/C07), and bound < r whenever t* < N. Independently of the bounds, the number of traversals that ran (pass markers, hook H3) must be t for every threshold-0 run with budget t and t* for every thresholded one-thread run. Sampled and External run under seeded sampling decisions (hook H2) so that the draw at (infoset, pass) is a pure function. distinct = hash(tree, configuration incl. threshold, sampling seed); non-trivial = game has a decision infoset.",
         &["seeded sampling feeds the production samplers from a deterministic generator keyed by (seed, site, infoset, pass)"],
     ));
 }
